@@ -167,11 +167,35 @@ pub fn io_fail_state(_args: &[String]) -> String {
                     return format!("{{\"found\": true, \"clause\": \"C18 a call panicked under a failing terminal\", \"input\": {{\"call\": \"{}\"}}, \"rerun\": \"replay io_fail_state\"}}", ops[k].0);
                 }
             }
-            let g = (good.position(), good.length(), good.message(), good.prefix(), good.is_finished());
-            let b = (bad.position(), bad.length(), bad.message(), bad.prefix(), bad.is_finished());
+            let g = (good.position(), good.length(), good.message(), good.prefix(), good.is_finished(), good.is_hidden());
+            let b = (bad.position(), bad.length(), bad.message(), bad.prefix(), bad.is_finished(), bad.is_hidden());
             if g != b {
-                return format!("{{\"found\": true, \"clause\": \"C18 position, length, message, prefix and finished status are what they would be without the I/O failure\", \"input\": {{\"history\": [\"{}\", \"{}\"], \"working_terminal\": {}, \"failing_terminal\": {}}}, \"rerun\": \"replay io_fail_state\"}}",
+                return format!("{{\"found\": true, \"clause\": \"C18 position, length, message, prefix, finished status and is_hidden() are what they would be without the I/O failure\", \"input\": {{\"history\": [\"{}\", \"{}\"], \"working_terminal\": {}, \"failing_terminal\": {}}}, \"rerun\": \"replay io_fail_state\"}}",
                     ops[i].0, ops[j].0, crate::js(&format!("{:?}", g)), crate::js(&format!("{:?}", b)));
+            }
+        }
+    }
+    // (c) a member whose frames failed is still a member afterwards: sibling operations that name it keep working
+    {
+        let t = Failing { budget: Arc::new(AtomicUsize::new(1_000_000)) };
+        let budget = t.budget.clone();
+        let mp = MultiProgress::with_draw_target(ProgressDrawTarget::term_like(Box::new(t)));
+        let a = mp.add(ProgressBar::new(10));
+        a.tick();
+        budget.store(0, Ordering::SeqCst);
+        a.inc(1); a.set_message("m"); a.tick();
+        budget.store(1_000_000, Ordering::SeqCst);
+        let r = catch_unwind(AssertUnwindSafe(|| {
+            let b = mp.insert_after(&a, ProgressBar::new(10));
+            let c = mp.insert_before(&a, ProgressBar::new(10));
+            b.tick(); c.tick(); a.tick();
+            mp.remove(&a);
+            a.is_hidden()
+        }));
+        match r {
+            Err(_) => return "{\"found\": true, \"clause\": \"C18 later calls on the same and on sibling bars keep working after a failed frame\", \"input\": {\"history\": [\"MultiProgress with bar a, ticked\", \"terminal fails\", \"a.inc(1); a.set_message(m); a.tick()\", \"terminal works again\", \"mp.insert_after(&a, ..); mp.insert_before(&a, ..); ticks; mp.remove(&a)\"], \"observed\": \"panic\"}, \"rerun\": \"replay io_fail_state\"}".to_string(),
+            Ok(hidden) => if !hidden {
+                return "{\"found\": true, \"clause\": \"C18 a member whose frames failed is still a member: mp.remove(&a) detaches it\", \"input\": {\"history\": [\"MultiProgress with bar a\", \"terminal fails during a.inc / set_message / tick\", \"terminal works again\", \"mp.remove(&a)\"], \"observed\": \"a.is_hidden() == false after remove\"}, \"rerun\": \"replay io_fail_state\"}".to_string();
             }
         }
     }
